@@ -104,6 +104,23 @@ def check(ctx):
     for k in (1, 4):
         sub = lines[k::3][:1500]
         fw.run_suite(ctx, exe, "S-cls/radiotap-fields@+%d" % k, sub, "frame classification of a capture at a misaligned address", env={"LWV_MISALIGN": str(k)})
+    # long radiotap headers: the announced length is a 16-bit field of which the library accepts up to 255 - every length
+    # around that limit, the filler inside the header present, an FCS announced or not, a frame of each kind behind it
+    lines = []
+    for N in (64, 128, 200, 250, 253, 254, 255, 256, 257, 300, 511, 512):
+        for fl in (0x00, 0x10):
+            base = rtbuild.build([{"fields": [1, 2], "values": {1: bytes([fl])}}], rnd)
+            pre = bytearray(base + payload(rnd, max(0, N - len(base))))
+            pre[2:4] = N.to_bytes(2, "little")
+            for fc0, fc1 in ((0x80, 0x00), (0x88, 0x00), (0x08, 0x80), (0xb4, 0x00)):
+                h = hdr_len(fc0, fc1)
+                for L in (h - 1, h, h + 5):
+                    fr = (bytes([fc0, fc1]) + payload(rnd, max(0, L - 2)))[:max(L, 0)]
+                    tail = (zlib.crc32(fr) & 0xffffffff).to_bytes(4, "little") if fl & 0x10 else b""
+                    lines.append("cls 1 " + (bytes(pre) + fr + tail).hex())
+    fw.run_suite(ctx, exe, "S-cls/radiotap-long", lines, "frame classification behind a long radiotap header")
+    import frames
+    fw.run_suite(ctx, exe, "S-cls/size-ladder", [l for l in frames.size_ladder(rnd, ctx.tier) if l.startswith("cls ")], "classification of long frames")
     # radiotap mode on frames without a radiotap header and vice versa
     mixed = []
     for _ in range(2000):
